@@ -168,3 +168,35 @@ def InfWorld.run (dflt : α) (ops : List (InfOp α)) : InfWorld α :=
 
 end Presolve
 end Clarabel
+
+/-! ### the hand reduction a user would perform (round 3: `presolve.hand_reduced`)
+
+Not a function of `presolver.rs`: the *specification-side* reduction against which
+`DefaultProblemData::new` with presolve on is compared (the harness oracle of the channels
+`presolve.solve` / `presolve.hand_reduced` builds exactly this problem). -/
+
+namespace Clarabel
+namespace Presolve
+
+variable {α : Type}
+
+/-- the hand reduction a user would do on the ORIGINAL (uncollapsed) cone list: every cone that
+`new_collapsed` treats as nonnegative (`NonnegativeConeT(d)`, `SecondOrderConeT(1)`,
+`PSDTriangleConeT(1)`) is replaced by `NonnegativeConeT(k)`, `k` = number of its kept rows
+(possibly 0); every other cone is copied and its markers skipped -/
+def handReduceCones : List Bool → List (ConeT α) → List (ConeT α)
+  | _, [] => []
+  | keep, c :: cs =>
+    match c.collapsibleDim? with
+    | some d => .nonneg ((keep.take d).count true) :: handReduceCones (keep.drop d) cs
+    | none => c :: handReduceCones (keep.drop c.nvars) cs
+
+/-- the user's hand-reduced problem: rows of `A`, `b` with `keep = false` deleted, cones
+shrunk -/
+def handReduce (keep : List Bool) (A : Csc α) (b : Array α) (cones : List (ConeT α)) :
+    MErr (Csc α × Array α × List (ConeT α)) := do
+  let A' ← A.selectRows keep.toArray
+  pure (A', Vec.select b keep.toArray, handReduceCones keep cones)
+
+end Presolve
+end Clarabel
